@@ -19,6 +19,7 @@ mod fuzz_misc;
 mod udp_sys;
 mod http_sys;
 mod ws_sys;
+mod watchdog;
 
 use std::collections::HashMap;
 
@@ -149,6 +150,8 @@ fn main() {
         "udp-sys" => udp_sys::run(&args),
         "http-sys" => http_sys::run(&args),
         "ws-sys" => ws_sys::run(&args),
+        "watchdog" => watchdog::run(&args),
+        "watchdog-case" => watchdog::case_child(&args),
         "ws-sys-case" => ws_sys::case_child(&args),
         "http-tracker" => http_sys::tracker_child(&args),
         "deep-json" => fuzz_misc::deep_json(&args),
